@@ -26,4 +26,7 @@ def run(ctx):
                          "detail": f"shaving enumerates {len(b[1])} solutions, bound consistency {len(a[1])}"})
         if a[0] != b[0]:
             viol.append({"kind": "shaving-vs-bc", "problem": cases[i]["problem"], "cfg": cases[i]["cfg"], "detail": f"outcomes differ: {a[0]} vs {b[0]}"})
+    # a user-registered constraint woken by instantiation only (harness/ground_watch.py): a shave that leaves a single value must announce it
+    import ground_watch
+    viol += ground_watch.run(ctx["report"], random.Random(ctx["seed"] + 1010), (200 * nv.boost("engine")) if ctx["tier"] == "quick" else 4000, (1, 1, 0))
     return {"corr_diffs": corr, "violations": viol, "component": "shavingPass/shaveBound (NucsModel/Engine/Search.lean) vs shaving_consistency_algorithm"}
